@@ -52,31 +52,40 @@ type MapInto struct {
 // Call the function with the arguments provided.
 func (f *MapInto) Call(s *slip.Scope, args slip.List, depth int) (result slip.Object) {
 	slip.CheckArgCount(s, depth, f, args, 2, -1)
-	rlist, ok := args[0].(slip.List)
-	if !ok {
+	var rlist slip.List
+	switch ta := args[0].(type) {
+	case nil:
+		// the empty list, nothing to fill
+	case slip.List:
+		rlist = ta
+	default:
 		slip.TypePanic(s, depth, "result-sequence", args[0], "list")
 	}
+	result = args[0]
 	fn := args[1]
 	d2 := depth + 1
 	caller := ResolveToCaller(s, fn, d2)
 	args = args[2:]
 	lists := make([]slip.List, len(args))
 	for i, arg := range args {
-		var list slip.List
-		if list, ok = arg.(slip.List); !ok {
+		switch ta := arg.(type) {
+		case nil:
+			// the empty list
+		case slip.List:
+			lists[i] = ta
+		default:
 			slip.TypePanic(s, depth, "lists", arg, "list")
 		}
-		lists[i] = list
 	}
 	ca := make(slip.List, len(args))
 	for i := 0; i < len(rlist); i++ {
 		for j, list := range lists {
 			if len(list) <= i {
-				return rlist
+				return
 			}
 			ca[j] = list[i]
 		}
 		rlist[i] = caller.Call(s, ca, d2)
 	}
-	return rlist
+	return
 }
